@@ -232,7 +232,7 @@ class Relay(W.NetPolicy):
                 _, oserial, (odata, osrc, odst) = cands[0]
                 nd = odata
                 if newid and len(nd) > 2:
-                    nid = (struct.unpack(">H", nd[:2])[0] + 1000 + 17 * back) & 0xFFFF or 9
+                    nid = (struct.unpack(">H", nd[:2])[0] + 1000 * int(newid) + 17 * back) & 0xFFFF or 9     # newid = 1, 2, ...: distinct new ids
                     self.idmap[(osrc, nid)] = self.idmap.get((osrc, struct.unpack(">H", nd[:2])[0]),
                                                             struct.unpack(">H", nd[:2])[0])
                     nd = struct.pack(">H", nid) + nd[2:]
